@@ -180,7 +180,7 @@ BEFORE = {
     'S9-C01': "reported, but through C04.S1's old reading 'no write into the cached boundary system', which also fired on the harmless half (a false alarm, see DESIGN 9.5); now reported by C09.P10 (polluted cache reached by copy / solve / solve) and S1's post-state clause",
     'S9-C04': "C09 silent: the state needs five operations (explicit step, solve, edit, apply_BCs, copy) before the failing solve; C09.P10 explores edit histories breadth-first over abstract protocol states",
     'S9-C06': "as S9-C01",
-    'S9-C08': "no check reported it; C15.Z6 (a repeated call with the same arguments returns the same values) added - reported by C15.Z6 and C01/C02, not by C08 (see DESIGN 9.8)",
+    'S9-C08': "no check reported it; C15.Z6 (a repeated call with the same arguments returns the same values) added, and C08 compares the operators as assembled the second time on a mesh",
     'S9-C09': "as S9-C01",
     'S9-C10': "exit 2 (a branch on all(np.allclose(..) for ..): a compound of tolerance predicates); compound fork predicates are decided atom by atom",
     'S9-C11': "exit 2 (weakref.WeakKeyDictionary, user-defined __eq__/__hash__ of dictionary keys): a documented analysis limit - two meshes that compare equal are outside every world the checks build",
